@@ -67,13 +67,16 @@ Init == pc = "gen" /\ c = <<>>
 Gen ==
   /\ pc = "gen"
   /\ \E li \in DOMAIN Layouts, ty \in Types, bias \in Biases :
-       LET l == Layouts[li]  s == l[ExecIdx(l)] IN
+       \* the mapping of the executable segment, or of the segment loaded right after it (samples are addresses
+       \* inside A mapping; which segment backs it must be decided from the mapping and the address alone)
+       \E si \in {ExecIdx(Layouts[li])} \cup ({ExecIdx(Layouts[li]) + 1} \cap DOMAIN Layouts[li]) :
+       LET l == Layouts[li]  s == l[si] IN
        /\ (ty = "EXEC" => bias = 0)
        /\ \E sp \in Splits(s) :
             LET lo == MapStartV(s) + sp[1] * Page
                 hi == MapStartV(s) + sp[2] * Page
             IN /\ Addrs(s, lo, hi) # {}
-               /\ c' = [kind |-> "elf", layout |-> l, type |-> ty, bias |-> bias,
+               /\ c' = [kind |-> "elf", seg |-> si, layout |-> l, type |-> ty, bias |-> bias,
                         mapstart |-> bias + lo, maplimit |-> bias + hi, mapoff |-> Floor(s.off) + sp[1] * Page,
                         addrs |-> { [x |-> bias + a, want |-> a, unique |-> Cardinality(Owners(l, FileOff(s, a))) = 1] : a \in Addrs(s, lo, hi) }]
   /\ pc' = "emit"
